@@ -234,12 +234,15 @@ pub fn run(ctx: &Ctx, c: &Case, o: &mut Outcome) {
         Some(false) => o.label("reference/unsatisfiable"),
         None => o.label("reference/not-an-assignment"),
     }
-    let mut out = vec![];
+    gens::set_io_style((case_hash(c) % 4) as u8);
+    o.label(format!("io-style/{}", gens::io_style()));
+    let mut sink = gens::Sink::new();
     let res = match c.via {
-        Via::Tree => guarded(|| r.generate_rln_proof(Cursor::new(b.bytes.clone()), &mut out).map_err(|e| e.to_string())),
-        Via::Witness => guarded(|| r.generate_rln_proof_with_witness(Cursor::new(b.bytes.clone()), &mut out).map_err(|e| e.to_string())),
-        Via::RawProve => guarded(|| r.prove(Cursor::new(b.bytes.clone()), &mut out).map_err(|e| e.to_string())),
+        Via::Tree => guarded(|| r.generate_rln_proof(gens::rd(&b.bytes), &mut sink).map_err(|e| e.to_string())),
+        Via::Witness => guarded(|| r.generate_rln_proof_with_witness(gens::rd(&b.bytes), &mut sink).map_err(|e| e.to_string())),
+        Via::RawProve => guarded(|| r.prove(gens::rd(&b.bytes), &mut sink).map_err(|e| e.to_string())),
     };
+    let out = sink.data;
     o.evals = 1;
     match res {
         Err(pn) => vfail!(o, "{:?} proving entry panicked on a {} request ({} bytes): {}", c.via, inval_name(&c.inval), b.bytes.len(), pn.0),
